@@ -368,8 +368,9 @@ pub fn unwinding_readers(s: &State, steps: usize) -> Option<String> {
             self.panicking.store(std::thread::panicking(), std::sync::atomic::Ordering::SeqCst);
             let mut v = Vec::new();
             for &(kind, id) in self.scripts {
+                // (a reader that panics here must not escape the destructor: that would abort the process)
                 let mut r = make_reader(self.arena, kind, id);
-                v.push((0..self.steps).map(|_| r()).collect());
+                v.push((0..self.steps).map(|k| std::panic::catch_unwind(std::panic::AssertUnwindSafe(|| r())).unwrap_or(0xdead_0000 + k as u64)).collect());
             }
             *self.out.lock().unwrap() = v;
         }
